@@ -3,7 +3,9 @@ VIEW View
 CONSTANTS
   Life = 5
   MaxGen = 3
+  Stream = TRUE
   MaxDepth = 10
 CONSTRAINT DepthBound
 INVARIANT C15_StragglersAreDead
 PROPERTY C06_OnlyTimeOrRefreshZero
+CHECK_DEADLOCK FALSE
